@@ -216,9 +216,12 @@ func vSNAPInit(il, zc bool) *chunkInit {
 func vh_C04_L1_snap_tokens() {
 	ilA, ilB, zA, zB := vPick(2) == 1, vPick(2) == 1, vPick(2) == 1, vPick(2) == 1
 	initA, initB := vSNAPInit(ilA, zA), vSNAPInit(ilB, zB)
+	// with SNAP the tokens are the whole negotiation: what the association itself was created
+	// with (possibly other options than its token was generated with) does not change it
+	cfgMatches := vPick(2) == 1
 	mk := func(local *chunkInit, il, zc bool) *Association {
 		cfg := &Config{NetConn: &vConn{}, LoggerFactory: vLoggerFactory{}, Name: "v", EnableZeroChecksum: zc}
-		cfg.enableInterleaving, cfg.enableInterleavingSet = il, true
+		cfg.enableInterleaving, cfg.enableInterleavingSet = il == cfgMatches, true
 		a := createAssociationFromConfigWithTsn(cfg, local.initialTSN)
 		a.payloadQueue = newReceivePayloadQueue(192)
 		return a
@@ -401,3 +404,66 @@ func vh_C04_L2_init_answered_in_cookie_echoed() {
 // C04.L3b: the handshake retries are bounded by the configured RTO.max, also one below the
 // protocol minimum (= C19.L3b).
 func vh_C04_L3_retries_bounded_by_configured_rto_max() { vh_C19_L3_armed_duration() }
+
+// C04.L6b: on the client side too, agreement is reached with the peer that answers: an INIT
+// from an earlier incarnation of the peer, received in COOKIE-WAIT, does not leak its
+// capabilities into what is negotiated from the INIT ACK that is finally honoured.
+func vh_C04_L6_agreement_follows_init_ack() {
+	localIl := vPick(2) == 1
+	a := vHandshakeEndpoint(localIl, false)
+	a.initClient()
+	_ = vWriterWake(a)
+	il1, il2 := vPick(2) == 1, vPick(2) == 1
+	init := &chunkInit{}
+	init.initiateTag, init.initialTSN = 1+nondetU32()%0xfffffffe, nondetU32()
+	init.numOutboundStreams, init.numInboundStreams = 10, 10
+	init.advertisedReceiverWindowCredit = 1 << 16
+	setSupportedExtensions(&init.chunkInitCommon, il1)
+	rawInit, err := (&packet{sourcePort: 5000, destinationPort: 5000, chunks: []chunk{init}}).marshal(true)
+	vassert(err == nil, "INIT marshals")
+	vInbound(a, rawInit)
+	_ = vWriterWake(a)
+	ack := &chunkInitAck{}
+	ack.initiateTag, ack.initialTSN = 1+nondetU32()%0xfffffffe, nondetU32()
+	ack.numOutboundStreams, ack.numInboundStreams = 10, 10
+	ack.advertisedReceiverWindowCredit = 1 << 16
+	setSupportedExtensions(&ack.chunkInitCommon, il2)
+	ack.params = append(ack.params, &paramStateCookie{cookie: nondetBytes(4)})
+	rawAck, aerr := (&packet{sourcePort: 5000, destinationPort: 5000, verificationTag: a.myVerificationTag, chunks: []chunk{ack}}).marshal(true)
+	vassert(aerr == nil, "INIT ACK marshals")
+	vInbound(a, rawAck)
+	vassert(a.getState() == cookieEchoed, "the INIT ACK is honoured")
+	vassert(a.peerInterleaving == il2 && a.peerIForwardTSN == il2, "what the peer supports is what the honoured INIT ACK lists")
+	vassert(a.useInterleaving == (localIl && il2), "interleaving follows the INIT ACK, not an earlier INIT")
+	vassert(a.useIForwardTSN == a.useInterleaving && a.useForwardTSN == !a.useInterleaving, "the forward-TSN variant follows")
+	vcover("end")
+}
+
+// C04.L2d: a COOKIE ACK means something only to an endpoint that has echoed a cookie. In
+// every other state (a server still listening, a client that has only sent INIT, an
+// established or closing association) a stale COOKIE ACK changes nothing: no state change,
+// no result handed to a connect call, timers untouched.
+func vh_C04_L2_cookie_ack_only_in_cookie_echoed() {
+	a := vHandshakeEndpoint(false, false)
+	client := vPick(2) == 1
+	if client {
+		a.initClient()
+		_ = vWriterWake(a)
+	} else {
+		a.initServer()
+	}
+	states := []uint32{closed, cookieWait, established, shutdownPending, shutdownSent, shutdownReceived, shutdownAckSent}
+	if !client || vPick(2) == 1 {
+		a.setState(states[vPick(len(states))])
+	}
+	st := a.getState()
+	vassume(st != cookieEchoed)
+	t1 := a.t1Init.isRunning()
+	raw, err := (&packet{sourcePort: 5000, destinationPort: 5000, verificationTag: a.myVerificationTag, chunks: []chunk{&chunkCookieAck{}}}).marshal(true)
+	vassert(err == nil, "COOKIE ACK marshals")
+	vInbound(a, raw)
+	vassert(a.getState() == st, "a COOKIE ACK outside COOKIE-ECHOED does not change the state")
+	vassert(len(a.handshakeCompletedCh) == 0, "and hands no result to a connect call")
+	vassert(a.t1Init.isRunning() == t1, "and leaves the INIT retransmissions as they were")
+	vcover("end")
+}
